@@ -72,7 +72,7 @@ class StmtMixin:
                 if isinstance(cur, PyList):
                     new = PyList(cur.items + [v], "list")
                 else:
-                    new = Val(f"(v_list (seq.++ (seqof {asV(cur)}) (seq.unit {asV(self.lift(v))})))", kind="list", fresh=TRUE)
+                    new = self.named_concat(s, [("seq", f"(seqof {asV(cur)})"), ("unit", asV(self.lift(v)))], "yl")
                 s.env = {**s.env, "__yield__": new}
                 out.append((s, None))
             return out
@@ -87,7 +87,7 @@ class StmtMixin:
                 if isinstance(cur, PyList) and items is not None:
                     new = PyList(cur.items + items, "list")
                 else:
-                    new = Val(f"(v_list (seq.++ (seqof {asV(self.lift(cur))}) (seqof {asV(self.lift(v))})))", kind="list", fresh=TRUE)
+                    new = self.named_concat(s, [("seq", f"(seqof {asV(self.lift(cur))})"), ("seq", f"(seqof {asV(self.lift(v))})")], "yl")
                 s.env = {**s.env, "__yield__": new}
                 out.append((s, None))
             return out
@@ -131,6 +131,12 @@ class StmtMixin:
         """Assignment to a target. Returns list of (state, signal)."""
         if isinstance(tgt, (ast.Name, ast.Tuple, ast.List)):
             if isinstance(tgt, ast.Name):
+                k = self.contract.kinds.get("=" + tgt.id)
+                if k and isinstance(v, Val) and v.sort == "V" and v.kind is None:
+                    hint = self.kind_hint(k)
+                    self.obl("kind", node, st, self.kind_pred(hint, v.t), detail=f"local {tgt.id} is {k} after this assignment")
+                    st.assume(self.kind_pred(hint, v.t), fact=True)
+                    v = Val(v.t, "V", v.fresh, hint[0], hint[1], v.origin)
                 st.env = {**st.env, tgt.id: v}
             else:
                 st.env = dict(st.env)
@@ -637,17 +643,28 @@ class StmtMixin:
         ordinal = self.loop_ordinal
         inv_src = self.contract.invariants.get(ordinal, "True")
         sq, elem = self.iter_seq_term(it, n)
-        modified = sorted(self.assigned_names(n.body) - set(self.target_names(n.target)))
-        modified = [m for m in modified if m in st.env]
+        modified = self.assigned_names(n.body) - set(self.target_names(n.target))
+        if any(isinstance(x, (ast.Yield, ast.YieldFrom)) for b in n.body for x in ast.walk(b)):
+            if "__yield__" not in st.env:
+                st.env = {**st.env, "__yield__": PyList([], "list")}
+            modified.add("__yield__")
+        modified |= getattr(self, "_loop_extra", {}).get(id(n), set())
+        modified = [m for m in sorted(modified) if m in st.env]
+        n_obl = len(self.obls)
+        self.container_touched = set()
 
         def inv_at(s, k):
             self.spec_state = s
-            sp = SpecEval(self, {**s.env, "_k": mkI(k), "_n": mkI(f"(seq.len {sq})"),
+            extra = {"_yielded": s.env["__yield__"]} if "__yield__" in s.env else {}
+            sp = SpecEval(self, {**s.env, **extra, "_k": mkI(k), "_n": mkI(f"(seq.len {sq})"),
                                  "_seq": Val(f"(v_list {sq})", kind="list")})
             return sp.compile_bool(inv_src)
 
         # init
-        self.obl("inv-init", n, st, inv_at(st, "0"), detail=f"loop {ordinal}: {inv_src}")
+        s_init = st
+        if "prefix(" in inv_src:
+            s_init = st.fork().assume(f"(= (seq.extract {sq} 0 0) (as seq.empty (Seq V)))", fact=True)      # IS-MEM: prefix ends
+        self.obl("inv-init", n, s_init, inv_at(s_init, "0"), detail=f"loop {ordinal}: {inv_src}")
         # arbitrary iteration
         k = self.declare(fresh_name("k"), "Int")
         s = st.fork()
@@ -662,6 +679,15 @@ class StmtMixin:
         havoc_env = dict(s.env)
         s.assume(f"(and (<= 0 {k}) (< {k} (seq.len {sq})))")
         s.assume(inv_at(s, k))
+        try:
+            if "member" in inv_src or "member" in self.contract.returns:
+                s.assume(f"(ismem {sq} {asV(self.lift(elem(k)))})", fact=True)    # the loop element is a member of the sequence (IS-MEM)
+            if "prefix(" in inv_src:
+                # xs[:k+1] == xs[:k] + [xs[k]], in membership form (IS-MEM: prefix step, concat, unit)
+                x = fresh_name("x")
+                s.assume(f"(forall (({x} V)) (! (= (ismem (seq.extract {sq} 0 (+ {k} 1)) {x}) (or (ismem (seq.extract {sq} 0 {k}) {x}) (= {x} (seq.nth {sq} {k})))) :pattern ((ismem (seq.extract {sq} 0 (+ {k} 1)) {x}))))", fact=True)
+        except OutOfSubset:
+            pass
         self.assign_target(s, n.target, elem(k), n)
         out = []
         for s2, sig in self.exec_block(s, n.body):
@@ -671,10 +697,19 @@ class StmtMixin:
                 out.append((s2, None))
             else:
                 out.append((s2, sig))
+        missed = {m for m in self.container_touched if m in st.env and m not in modified}
+        if missed:
+            # a callee mutated a container held in a local the syntactic scan did not see: redo the loop with it havocked
+            self._loop_extra = {**getattr(self, "_loop_extra", {}), id(n): getattr(self, "_loop_extra", {}).get(id(n), set()) | missed}
+            del self.obls[n_obl:]
+            self.loop_ordinal -= 1
+            return self.for_invariant(st, n, it)
         # exit
         e = st.fork()
         e.env = dict(havoc_env)
         e.assume(inv_at(e, f"(seq.len {sq})"))
+        if "prefix(" in inv_src:
+            e.assume(f"(= (seq.extract {sq} 0 (seq.len {sq})) {sq})", fact=True)      # IS-MEM: prefix ends
         out.append((e, None))
         return out
 
